@@ -148,10 +148,14 @@ class MonNet(ChargingNetwork):
 _NET_CACHE = {}
 
 
-def build_network(name, order=None, corder=None, cls=MonNet, limits=None, unnamed=False, **kw):
+def build_network(name, order=None, corder=None, cls=MonNet, limits=None, unnamed=False, hist=None, **kw):
     """Fresh network from template `name`; `order` permutes station registration,
-    `corder` permutes constraint insertion, `limits` overrides constraint limits by name."""
-    key = (name, tuple(order or ()), tuple(corder or ()), cls, tuple(sorted((limits or {}).items())), unnamed, tuple(sorted(kw.items())))
+    `corder` permutes constraint insertion, `limits` overrides constraint limits by name.
+    `hist` reaches the same constraint set through an edit history instead of directly:
+    "aux" - an auxiliary constraint is added after the first one, queried once, and removed at the end;
+    "upd" - every constraint is first added with twice its limit and the wrong sign pattern, queried once,
+            then corrected with update_constraint (which re-appends it)."""
+    key = (name, tuple(order or ()), tuple(corder or ()), cls, tuple(sorted((limits or {}).items())), unnamed, hist, tuple(sorted(kw.items())))
     tpl = _NET_CACHE.get(key)
     if tpl is None:
         spec = NETS[name]
@@ -171,7 +175,25 @@ def build_network(name, order=None, corder=None, cls=MonNet, limits=None, unname
                     lim = limits[cname]
                 # unnamed: the network invents positional names (_const_0, ...), which then denote DIFFERENT
                 # constraints in differently ordered builds
-                tpl.add_constraint(Current(dict(coefs)), lim, name=None if unnamed else cname)
+                if hist == "upd" and not unnamed:
+                    tpl.add_constraint(Current({k: abs(c) for k, c in coefs.items()}), 2 * lim, name=cname)
+                else:
+                    tpl.add_constraint(Current(dict(coefs)), lim, name=None if unnamed else cname)
+                if hist == "aux" and i == idx[0]:
+                    tpl.add_constraint(Current({st_ids[0]: 1, st_ids[-1]: 1}), 999.0, name="aux")
+            if hist in ("aux", "upd") and tpl.constraint_index:
+                # a query in the intermediate state (anything cached per constraint set is now stale)
+                zero = np.zeros((len(st_ids), 1))
+                tpl.is_feasible(zero)
+                tpl.constraint_current(zero, constraints=list(tpl.constraint_index)[-1:])
+            if hist == "aux":
+                tpl.remove_constraint("aux")
+            if hist == "upd" and not unnamed:
+                for i in idx:
+                    cname, coefs, lim = cons[i]
+                    if limits and cname in limits:
+                        lim = limits[cname]
+                    tpl.update_constraint(cname, Current(dict(coefs)), lim, cname)
         _NET_CACHE[key] = tpl
     return copy.deepcopy(tpl)
 
@@ -353,7 +375,7 @@ def horizon_of(scn):
 
 def build_sim(scn, algo=None, on_call=None, on_return=None, net_cls=MonNet, monitor=True, store_history=False, peek=False):
     """scenario descriptor -> (sim, recorder, evs, periods-log)"""
-    net = build_network(scn["net"], scn.get("order"), scn.get("corder"), cls=net_cls, limits=scn.get("limits"), unnamed=bool(scn.get("unnamed")))
+    net = build_network(scn["net"], scn.get("order"), scn.get("corder"), cls=net_cls, limits=scn.get("limits"), unnamed=bool(scn.get("unnamed")), hist=scn.get("hist"))
     evs = {}
     events = []
     order = scn.get("sorder") or range(len(scn["sessions"]))
